@@ -3,13 +3,13 @@ import SignaloModel.Proofs.SourcesTree
 /-!
 # C10 — Source adapters yield exactly what their iterator analogues yield
 
-Property theorems for C10 (statements are printed by `#check`, axioms by `#check @Sources.peek_correct
-#check @Sources.runPeek_correct
-#print axioms`;
-`bin/check C10` re-elaborates this file on every run and audits the axiom lists).
+The property theorems for C10: `#check` prints each statement, `#print axioms` its axioms;
+`bin/check C10` re-elaborates this file on every run and audits the axiom lists.
 -/
 open SignaloModel
 
+#check @Sources.peek_correct
+#check @Sources.runPeek_correct
 #check @Sources.tree_correct
 #check @Sources.implements_of_bisim
 #check @Sources.fromList_correct
@@ -31,6 +31,8 @@ open SignaloModel
 #check @Sources.peek_idem
 #check @Sources.peek_pull_plain
 
+#print axioms Sources.peek_correct
+#print axioms Sources.runPeek_correct
 #print axioms Sources.tree_correct
 #print axioms Sources.implements_of_bisim
 #print axioms Sources.fromList_correct
@@ -51,5 +53,3 @@ open SignaloModel
 #print axioms Sources.peek_then_pull
 #print axioms Sources.peek_idem
 #print axioms Sources.peek_pull_plain
-#print axioms Sources.peek_correct
-#print axioms Sources.runPeek_correct
